@@ -136,10 +136,8 @@ func rlExtras(s *Stream, rng *Rng) {
 			p = fmt.Sprintf("/outer/%d/panic", code)
 			do("nested dispatch, then panic", newReq("POST", p), code, []want{{p, code}, {fmt.Sprintf("/inner/%d", code), code}}, 1)
 		}
-		for _, code := range []int{99, 1000, 5} {
-			p := fmt.Sprintf("/bad/%d", code)
-			do("WriteHeader with a code net/http refuses", newReq("GET", p), 500, []want{{p, 500}}, 1)
-		}
+		// (a handler calling WriteHeader with a code outside 100..999 - refused by net/http with a panic - is not
+		// exercised: C15 quantifies over status codes 200-599)
 		up := newReq("GET", "/ws")
 		up.Header.Set("Upgrade", "websocket")
 		up.Header.Set("Connection", "keep-alive, Upgrade")
